@@ -394,7 +394,7 @@ func (f Index) Iterate(fn IndexIterFunc, options *IterateOptions) (err error) {
 	if options.Reverse {
 		itSeekerFn = it.Prev
 	}
-	if options.SkipStartFromItem && bytes.Equal(startKey, it.Key()) {
+	if options.StartFrom != nil && options.SkipStartFromItem && bytes.Equal(startKey, it.Key()) {
 		// skip the start from Item if it is the first key
 		// and it is explicitly configured to skip it
 		ok = itSeekerFn()
